@@ -105,6 +105,10 @@ def value_position_shapes():
 
 
 SHAPES.update(value_position_shapes())
+# spellings of numeric literals: mantissa x exponent (whatever the lexer lets through is copied into the output digit by digit)
+for _m in ('0', '7', '07', '00', '1.5', '01.5', '0.5', '00.5', '1.50', '1.05', '10', '1_0'):
+    for _e in ('', 'E0', 'E5', 'E05', 'E00', 'E10', 'E-3', 'E+3', 'E1.5', 'E', 'e5'):
+        SHAPES[f'number:{_m}{_e}'] = f'def x := {_m}{_e}\nprint(x)\ndef y: Float := 2.0 * {_m}{_e}\n'
 # a `with` (a statement in Python) where the converter looks for the value of a function / branch
 _W = 'def res := 10\ndef log(x: Int) => print("v {x}")\n'
 SHAPES.update({
